@@ -355,3 +355,12 @@ Proof.
   destruct (d (KIdx t)) as [id|] eqn:E; [|exfalso; now apply Hp].
   exists t, id. repeat split; auto. exact (c_index_data d C _ _ E). now apply above_tip_absent.
 Qed.
+
+(* restore from the temp table: at every crash point the block is on the chain or still in the temp table *)
+Theorem restore_never_loses_block : forall d i k, present d (KTemp (a_h i)) ->
+  RestoreSafe (durable_after d (firstn k (add_actions i))) (a_h i) (a_id i).
+Proof.
+  intros d i k Ht. destruct (crash_before_or_after d (CAdd i) k) as [H|H]; cbn [actions_of] in H; rewrite H.
+  - now right.
+  - unfold add_actions. destruct (a_ok i); [|now right]. cbn. left. now rewrite add_idx, N.eqb_refl.
+Qed.
